@@ -13,7 +13,8 @@ LABELS = ['alpha', 'Alpha', 'ALPHA', 'beta', 'gamma', 'delta']
 TEXTS = ['m one', 'm two', 'm three', '', 'Complete', 'Great work!']
 TITLES = ['T1', 'T2', 'Instructor Feedback', '']
 SCORES = [0, 1, 2, 5, 0.25, 0.5, 0.1, 0.07, 1.5, '+1', '+3', '+0.25', '10%', '25%', '+50%', '+5%', '-1', '-0.5',
-          '-10%', '-25%', '33%', '0.33', -2, -0.25, '7', '0.005', '+0.015', '.25', '.5', '.5%', '+.2', '-.05', '1.', '+1.%']
+          '-10%', '-25%', '33%', '0.33', -2, -0.25, '7', '0.005', '+0.015', '.25', '.5', '.5%', '+.2', '-.05', '1.', '+1.%',
+          1e-05, -2e-05, 0.00009, 3.5e-07, 1e16, 2.5e+17]     # floats whose str() has an exponent
 PARENTS = [None, 1, 2, 'g']
 FIELD_KEYS = ['k', 'n']
 FIELD_VALUES = [1, 2, 'x']
